@@ -429,10 +429,10 @@ def wf_args_py(a, connect):
     if a['reason'] is not None and not field_ok(a['reason']): return False
     hs = a['headers'] or []
     if len(set(k for k, _ in hs)) != len(hs): return False
+    if sum(1 for k, _ in hs if k.lower() == b'content-length') > (0 if a['no_cl'] else 1): return False
     for k, val in hs:
         if not k or any(c not in TCHAR for c in k) or not field_ok(val): return False
         if k.lower() == b'transfer-encoding': return False
-        if k.lower() == b'content-length' and (a['no_cl'] or k != b'Content-Length'): return False
     nobody = a['status'] in (204, 304) or (connect and a['status'] < 300)
     if nobody and a['body']: return False
     if a['no_cl'] and not nobody and not a['conn_close']: return False
